@@ -33,16 +33,21 @@ func c17Compare(p *jt1078.Packet, w ref.RTP, fresh bool) (field string, got, wan
 	if !bytes.Equal(p.Body, w.Payload) {
 		return "Body", hx(p.Body), hx(w.Payload)
 	}
-	if w.HasTime() || fresh {
-		if p.Timestamp != w.Time {
-			return "Timestamp", p.Timestamp, w.Time
-		}
+	// fields the packet does not carry are zero, whatever the Packet value decoded before
+	wt, wi, wf := w.Time, w.IFrame, w.Frame
+	if !w.HasTime() {
+		wt = 0
 	}
-	if w.HasIntervals() || fresh {
-		if p.LastIFrameInterval != w.IFrame || p.LastFrameInterval != w.Frame {
-			return "Intervals", [2]uint16{p.LastIFrameInterval, p.LastFrameInterval}, [2]uint16{w.IFrame, w.Frame}
-		}
+	if !w.HasIntervals() {
+		wi, wf = 0, 0
 	}
+	if p.Timestamp != wt {
+		return "Timestamp", p.Timestamp, wt
+	}
+	if p.LastIFrameInterval != wi || p.LastFrameInterval != wf {
+		return "Intervals", [2]uint16{p.LastIFrameInterval, p.LastFrameInterval}, [2]uint16{wi, wf}
+	}
+	_ = fresh
 	return "", nil, nil
 }
 
